@@ -183,6 +183,30 @@ def rsFlag (c : Cfg) (parsed : Option Val) (s : Site) : Bool :=
   | none => false
   | some v => !c.allows v && !rsExempt s
 
+/-! ## Definition files (Python): `is_definition_file` exempts the whole file -/
+
+/-- what `is_definition_file` looks at -/
+structure FileFacts where
+  name : List Char           -- last path component
+  upperConsts : Nat          -- module-level `UPPER_CASE = <int/float/bool constant>` assignment targets
+  dictIntKeys : List Nat     -- one entry per dict display anywhere in the file: its number of integer-constant keys
+  deriving Repr
+
+/-- `_matches_definition_filename` (tables regenerated from the source, tie T1) -/
+def matchesDefinitionName (name : List Char) : Bool :=
+  let low := name.map lowerAscii
+  Gen.Magic.definitionNameSuffixes.any (fun s => s.toList.isSuffixOf low) ||
+  Gen.Magic.definitionNameExact.any (fun s => s.toList == low)
+
+/-- `is_definition_file`: by name, or ≥ MIN_UPPERCASE_CONSTANTS module-level numeric constants, or *one*
+    dict display with ≥ MIN_DICT_INT_KEYS integer keys -/
+def isDefinitionFile (f : FileFacts) : Bool :=
+  matchesDefinitionName f.name || decide (Gen.Magic.minUppercaseConstants ≤ f.upperConsts) ||
+  f.dictIntKeys.any (fun k => decide (Gen.Magic.minDictIntKeys ≤ k))
+
+/-- Python, whole file: nothing is reported in a definition file -/
+def pyFlagIn (c : Cfg) (f : FileFacts) (s : Site) : Bool := !isDefinitionFile f && pyFlag c s
+
 /-! ## Specification -/
 
 /-- documented exempt positions -/
@@ -198,5 +222,16 @@ def specExempt (lang : String) (c : Cfg) (s : Site) : Bool :=
    | .plain => false)
 
 def specFlag (lang : String) (c : Cfg) (s : Site) : Bool := !c.allows s.value && !specExempt lang c s
+
+/-- "a file that is itself a constants-definition module": named `constants.py`, `*_constants.py` or
+    `*_codes.py` (any letter case), or defining at least ten module-level numeric UPPER_CASE constants, or
+    containing a lookup table — a single dict with at least five integer keys -/
+def specDefinitionFile (f : FileFacts) : Bool :=
+  let low := f.name.map lowerAscii
+  low == "constants.py".toList || "_constants.py".toList.isSuffixOf low || "_codes.py".toList.isSuffixOf low ||
+  decide (10 ≤ f.upperConsts) || f.dictIntKeys.any (fun k => decide (5 ≤ k))
+
+def specFlagIn (lang : String) (c : Cfg) (f : FileFacts) (s : Site) : Bool :=
+  !(lang == "python" && specDefinitionFile f) && specFlag lang c s
 
 end ThaiLintModel.C02
